@@ -491,6 +491,29 @@ func runW5(s *core.Shard, next func(string) bool) {
 		}
 		one("many-services/500", single(sb.String()))
 	}
+	// dependency lattices: few services, exponentially many paths (layers x width, every service of a
+	// layer depends on every service of the layer below) - the cycle check and whatever else walks the
+	// graph must not enumerate paths
+	for _, sh := range [][2]int{{12, 2}, {40, 2}, {30, 3}, {200, 2}} {
+		var sb strings.Builder
+		sb.WriteString("services:\n")
+		for l := 0; l < sh[0]; l++ {
+			for w := 0; w < sh[1]; w++ {
+				fmt.Fprintf(&sb, "  l%03dw%d:\n    image: i\n", l, w)
+				if l > 0 {
+					sb.WriteString("    depends_on:\n")
+					for w2 := 0; w2 < sh[1]; w2++ {
+						if (l+w)%2 == 0 {
+							fmt.Fprintf(&sb, "      l%03dw%d: {condition: service_started}\n", l-1, w2)
+						} else {
+							fmt.Fprintf(&sb, "      l%03dw%d: {condition: service_healthy, required: true}\n", l-1, w2)
+						}
+					}
+				}
+			}
+		}
+		one(fmt.Sprintf("dependency-lattice/%dx%d", sh[0], sh[1]), single(sb.String()))
+	}
 	one("huge-scalar/1MB", single("services: {s: {image: i, labels: {l: \""+strings.Repeat("x", 1<<20)+"\"}}}\n"))
 	one("huge-port-range", single("services: {s: {image: i, ports: [\"1-20000:1-20000\"]}}\n"))
 	one("many-env/20000", single("services:\n  s:\n    image: i\n    environment:\n"+func() string {
